@@ -12,6 +12,7 @@ from ..decide import expand_expr
 from ..loader import AnalysisError, ClassInfo, ConstInfo, FuncInfo
 from ..regexlang import sre_parse
 from ..report import Ctx
+from .callback import G, callback_of, callback_outcomes, fmt_parts
 from .common import all_guards, call_name, direct_guards, exclusive_helpers, guard_atoms, norm, reachable_functions, where
 from .render import get_model
 
@@ -489,65 +490,86 @@ def check_quotes_shape(ctx: Ctx) -> None:
     # the content groups cannot contain a quote of their own kind (so pairs cannot nest / cross)
     # callback
     ap = repo.func(f"{mod}:_apply_smart_quotes_to_text")
-    cbs = [f for f in ap.local_defs.values() if isinstance(f, FuncInfo)]
-    if not cbs:
+    aflow = prog.flow(ap)
+    cb = None
+    for n, c in aflow.all_calls():
+        if isinstance(c.func, ast.Attribute) and c.func.attr == "sub":
+            r = repo.resolve_expr(c.func.value, ap.module, ap)
+            if isinstance(r, ConstInfo) and r.name == "QUOTE_PATTERN":
+                cb = callback_of(prog, ap, c)
+    if cb is None:
         raise AnalysisError("replacement callback of QUOTE_PATTERN not found")
-    cb = cbs[0]
-    flow = prog.flow(cb)
-    n_ret = 0
-    for r in flow.cfg.returns():
-        v = r.ast.value
-        n_ret += 1
-        if isinstance(v, ast.Call) and _group_of(prog, cb, v, r) == 0:
-            ctx.ob("R-SUBSHAPE-quote", f"{cb.qual} :: {norm(v)}", True, "returns the whole match unchanged", where(cb, r))
-            continue
-        parts = _flatten_concat(v)
-        ok = len(parts) == 5
-        detail = f"parts: {[norm(p) for p in parts]}"
-        if ok:
-            g = [_group_of(prog, cb, parts[i], r) for i in (0, 2, 4)]
-            c1, c2 = parts[1], parts[3]
-            consts_ok = isinstance(c1, ast.Constant) and isinstance(c2, ast.Constant) and isinstance(c1.value, str) and len(c1.value) == 1 \
-                and isinstance(c2.value, str) and len(c2.value) == 1
-            ok = g[0] == 1 and g[2] == 4 and g[1] in (2, 3) and consts_ok
-            if ok:
-                pair = (c1.value, c2.value)
-                ok = pair == (CURLY_DOUBLE if g[1] == 2 else CURLY_SINGLE)
-                detail = f"groups {g}, quote characters {pair!r}"
-                # the branch must be the one where that content group is set
-                guards = [(b, lab) for b, lab in all_guards(prog, cb, r) if b.kind == "test"]
-                for b, lab in guards:
-                    t = norm(b.ast)
-                    if "is not None" in t:
-                        gi = _group_of(prog, cb, b.ast.left, b)
-                        if gi in (2, 3):
-                            expect = gi if lab == "T" else (5 - gi)
-                            ok = ok and g[1] == expect
-        ctx.ob("R-SUBSHAPE-quote", f"{cb.qual} :: {norm(v)[:70]}", ok,
+    repo.func(cb.qual)  # anchor
+    # what the callback can return, by which kind of quote matched (group 2: double, group 3: single)
+    n_ret = len(prog.flow(cb).cfg.returns())
+    for gid, pair, other in ((2, CURLY_DOUBLE, 3), (3, CURLY_SINGLE, 2)):
+        outs = callback_outcomes(prog, cb, {gid: True, other: False})
+        want = (G(1), pair[0], G(gid), pair[1], G(4))
+        bad = [o for o in outs if o not in ((G(0),), want)]
+        ctx.ob("R-SUBSHAPE-quote", f"{cb.qual} :: replacement when group {gid} matched", not bad and want in outs,
                "the replacement must be group1 + one curly quote + the content group + the matching curly quote + group4 "
-               f"(length preserving, only the two quote positions change); {detail}", where(cb, r))
+               "(length preserving, only the two quote positions change), or the whole match unchanged; "
+               f"with group {gid} set the callback can return: {sorted(fmt_parts(o) for o in outs)}", where(cb, cb.node))
     ctx.require("R-SUBSHAPE", "returns of the quote callback", n_ret, 2)
     # apostrophes: one-character pattern, one-character replacement; the split keeps its separators
-    aflow = prog.flow(ap)
     n_sub = 0
-    for n, c in aflow.all_calls():
-        nm = call_name(prog, ap, c)
-        if nm == "re.sub" and len(c.args) >= 3:
-            n_sub += 1
-            p, rpl = c.args[0], c.args[1]
-            okp = isinstance(p, ast.Constant) and isinstance(p.value, str) and _single_literal(p.value) in ("'",)
-            okr = isinstance(rpl, ast.Constant) and isinstance(rpl.value, str) and len(rpl.value) == 1 and rpl.value in CURLY_SINGLE
-            ctx.ob("R-SUBSHAPE-apostrophe", f"{ap.qual} :: {norm(c)[:60]}", okp and okr,
-                   "an apostrophe rewrite must replace exactly one straight single quote by one curly single quote", where(ap, c))
-        if nm == "re.split" and c.args:
-            p = c.args[0]
-            ok = isinstance(p, ast.Constant) and isinstance(p.value, str) and _is_single_capture(p.value)
-            ctx.ob("R-SUBSHAPE-apostrophe", f"{ap.qual} :: {norm(c)[:60]}", ok,
-                   "re.split must capture its separator in one group so that ''.join restores every character", where(ap, c))
+    folder = Folder(repo)
+
+    def const_str(f: FuncInfo, e: ast.AST, node: Node | None) -> str | None:
+        if isinstance(e, ast.Constant) and isinstance(e.value, str):
+            return e.value
+        if isinstance(e, ast.Name) and node is not None and not prog.flow(f).reaching(node, e.id):
+            r = repo.lookup(e.id, f.module, f)
+            if isinstance(r, ConstInfo):
+                try:
+                    v = folder.const(r.qual)
+                except Unknown:
+                    return None
+                return v if isinstance(v, str) else None
+        return None
+
+    def pattern_of(f: FuncInfo, e: ast.AST) -> str | None:
+        """pattern text of a compiled module-level regex"""
+        r = repo.resolve_expr(e, f.module, f) if isinstance(e, (ast.Name, ast.Attribute)) else None
+        if isinstance(r, ConstInfo):
+            try:
+                v = folder.const(r.qual)
+            except Unknown:
+                return None
+            return v.pattern if isinstance(v, RegexConst) else None
+        return None
+
+    funcs = [ap] + [repo.functions[q] for q in sorted(exclusive_helpers(prog, ap)) if q in repo.functions and repo.functions[q] is not cb]
+    n_join = 0
+    for f in funcs:
+        fl = prog.flow(f)
+        for n, c in fl.all_calls():
+            nm = call_name(prog, f, c)
+            if nm == "re.sub" and len(c.args) >= 3:
+                n_sub += 1
+                p, rpl = const_str(f, c.args[0], n), const_str(f, c.args[1], n)
+                okp = p is not None and _single_literal(p) in ("'",)
+                okr = rpl is not None and len(rpl) == 1 and rpl in CURLY_SINGLE
+                ctx.ob("R-SUBSHAPE-apostrophe", f"{f.qual} :: {norm(c)[:60]}", okp and okr,
+                       "an apostrophe rewrite must replace exactly one straight single quote by one curly single quote", where(f, c))
+            elif isinstance(c.func, ast.Attribute) and c.func.attr == "replace" and len(c.args) == 2 and nm not in ("re.sub",):
+                a0, a1 = const_str(f, c.args[0], n), const_str(f, c.args[1], n)
+                if a0 is not None and "'" in a0 or a1 is not None and any(ch in (a1 or "") for ch in CURLY_SINGLE + CURLY_DOUBLE):
+                    n_sub += 1
+                    ctx.ob("R-SUBSHAPE-apostrophe", f"{f.qual} :: {norm(c)[:60]}", a0 == "'" and a1 is not None and len(a1) == 1 and a1 in CURLY_SINGLE,
+                           "an apostrophe rewrite must replace exactly one straight single quote by one curly single quote", where(f, c))
+            if nm == "re.split" and c.args:
+                p = const_str(f, c.args[0], n)
+                ctx.ob("R-SUBSHAPE-apostrophe", f"{f.qual} :: {norm(c)[:60]}", p is not None and _is_single_capture(p),
+                       "re.split must capture its separator in one group so that ''.join restores every character", where(f, c))
+            elif isinstance(c.func, ast.Attribute) and c.func.attr == "split" and pattern_of(f, c.func.value) is not None:
+                p = pattern_of(f, c.func.value)
+                ctx.ob("R-SUBSHAPE-apostrophe", f"{f.qual} :: {norm(c)[:60]}", p is not None and _is_single_capture(p),
+                       "the split must capture its separator in one group so that ''.join restores every character", where(f, c))
+            if isinstance(c.func, ast.Attribute) and c.func.attr == "join" and isinstance(c.func.value, ast.Constant) and c.func.value.value == "":
+                n_join += 1
     ctx.require("R-SUBSHAPE", "apostrophe substitutions", n_sub, 1)
-    joins = [c for n, c in aflow.all_calls() if isinstance(c.func, ast.Attribute) and c.func.attr == "join"
-             and isinstance(c.func.value, ast.Constant) and c.func.value.value == ""]
-    ctx.ob("R-SUBSHAPE-apostrophe", f"{ap.qual} :: words rejoined with the empty string", bool(joins),
+    ctx.ob("R-SUBSHAPE-apostrophe", f"{ap.qual} :: words rejoined with the empty string", n_join >= 1,
            "the word list (with captured separators) must be rejoined with ''", where(ap, ap.node))
     # smart_quotes: slices partition the text, tags are copied verbatim
     sq = repo.func(f"{mod}:smart_quotes")
@@ -562,11 +584,7 @@ def check_quotes_shape(ctx: Ctx) -> None:
             continue
         ok = False
         if isinstance(a, ast.Call) and prog.resolve_call(sq, a) == [ap] and a.args:
-            sl = a.args[0]
-            if isinstance(sl, ast.Name):
-                defs = sflow.reaching(n, sl.id)
-                if len(defs) == 1 and isinstance(defs[0].value, ast.Subscript):
-                    sl = defs[0].value
+            sl = expand_expr(prog, sq, a.args[0], n, depth=1)
             if isinstance(sl, ast.Subscript) and isinstance(sl.slice, ast.Slice) and sl.slice.step is None:
                 lo = norm(sl.slice.lower) if sl.slice.lower is not None else ""
                 hi = norm(sl.slice.upper) if sl.slice.upper is not None else ""
@@ -708,36 +726,29 @@ def check_ellipsis_shape(ctx: Ctx) -> None:
         ctx.ob("R-SUBSHAPE-ellipsis", f"{mod}:ELLIPSIS_PATTERN :: group {gi} is whitespace", ok,
                "only whitespace directly around the dots may be normalised", where(repo.module(mod), repo.module(mod).defs['ELLIPSIS_PATTERN'].assigns[0]))
     el = repo.func(f"{mod}:ellipses")
-    cbs = [f for f in el.local_defs.values() if isinstance(f, FuncInfo)]
-    if not cbs:
+    cb = None
+    for n, c in prog.flow(el).all_calls():
+        if isinstance(c.func, ast.Attribute) and c.func.attr == "sub":
+            r = repo.resolve_expr(c.func.value, el.module, el)
+            if isinstance(r, ConstInfo) and r.name == "ELLIPSIS_PATTERN":
+                cb = callback_of(prog, el, c)
+    if cb is None:
         raise AnalysisError("replacement callback of ELLIPSIS_PATTERN not found")
-    cb = cbs[0]
-    flow = prog.flow(cb)
-    n_ret = 0
-    for r in flow.cfg.returns():
-        v = r.ast.value
-        n_ret += 1
-        if isinstance(v, ast.Call) and _group_of(prog, cb, v, r) == 0:
-            ctx.ob("R-SUBSHAPE-ellipsis", f"{cb.qual} :: {norm(v)}", True, "returns the whole match unchanged", where(cb, r))
-            continue
-        # result variable: built from groups 1,2,4,5, " " and the ellipsis character only
-        sl = prog.slice(cb, v, r)
-        consts = {s[1] for s in sl.sources if s[0] == "const"}
-        gs = set()
-        for d in sl.defs:
-            if d.value is not None:
-                for k in _group_calls(cb, d.value, flow, d.node):
-                    gs.add(k)
-        for x in ast.walk(v):
-            pass
-        str_consts = {c for c in consts if c.startswith("'") or c.startswith('"')}
-        allowed_consts = {"' '", "'…'", "''"}
-        # constants used in *conditions* (regex strings like '\\w') are not emitted: only look at value-path constants
-        emitted = _emitted_constants(prog, cb, v, r)
-        ok = gs <= {1, 2, 4, 5} and emitted <= {" ", "…", ""} and "…" in emitted
-        ctx.ob("R-SUBSHAPE-ellipsis", f"{cb.qual} :: {norm(v)[:50]} built from groups 1,2,4,5", ok,
-               f"the replacement may only contain the groups around the dots, a space and the ellipsis character; groups used {sorted(gs)}, "
-               f"literals emitted {sorted(emitted)}", where(cb, r))
+    repo.func(cb.qual)  # anchor
+    n_ret = len(prog.flow(cb).cfg.returns())
+    outs = callback_outcomes(prog, cb, {})
+    from .callback import flatten as _flat
+
+    allowed = {(G(0),)}
+    for a in (" ", G(2)):
+        for b in (" ", G(5)):
+            allowed.add(_flat(("cat", ("cat", ("cat", ("cat", G(1), a), "…"), G(4)), b)))
+    bad = [o for o in outs if o not in allowed]
+    keeps = _flat(("cat", ("cat", ("cat", ("cat", G(1), G(2)), "…"), G(4)), G(5)))
+    ctx.ob("R-SUBSHAPE-ellipsis", f"{cb.qual} :: replacement built from groups 1,2,4,5", not bad and keeps in outs,
+           "the replacement may only be: the whole match, or group1 + (group2 | one space) + the ellipsis character + group4 + (group5 | one space) - "
+           "only the three dots and the whitespace directly around them change; "
+           f"the callback can return: {sorted(fmt_parts(o) for o in outs)}", where(cb, cb.node))
     ctx.require("R-SUBSHAPE", "returns of the ellipsis callback", n_ret, 1)
     _check_literals(ctx, mod, {"…", "“", "‘", "”", "’", "—"})
 
